@@ -3,11 +3,25 @@
 Oracle (from the property statement): a row satisfies a column condition when the cell `is None` (condition None), is a NaN
 (condition NaN), is a string the compiled regex finds a match in (condition regex), equals one of the listed values (condition
 list) or equals the value; a conjunction needs every column condition; a callable is called with the named columns and its
-result taken as a truth value.  inc = the satisfying rows in original order, exc = the others in original order."""
+result taken as a truth value.  inc = the satisfying rows in original order, exc = the others in original order.
+
+Special float cells (+inf, -inf as python floats and numpy float64 NaN / inf objects, -0.0): the statement says a condition may be
+"NaN" and does not say whether an infinite cell counts as one (the library's is_nan says it does).  The oracle takes no stand:
+for a NaN condition an infinite cell is *unspecified*, for an infinite condition every NaN / infinite cell other than an equal
+one is unspecified; inc must keep every satisfying row, no failing row, any of the unspecified ones, in table order, exc
+likewise with the roles swapped - and the clauses that do not depend on the reading are asserted as they stand: every row in
+exactly one of inc and exc, original order, columns kept, idempotence; find_ / one_or_none are then read against the rows inc
+actually selected (the statement defines them through inc)."""
 import itertools, math, random, re
 from rac.common import Collector
 
 U = [None, 1, 2.0, 'nan', 'a', 'ab']         # cell tokens; 'nan' -> one float('nan') object per table (as np.nan would be)
+SPECIAL_CELLS = ['inf', '-inf', 'npnan', 'npinf', 'neg0']      # float +-inf, one numpy.float64 NaN per table, numpy.float64 inf, -0.0
+U2 = U + SPECIAL_CELLS
+NAN_TOKS, INF_TOKS = ('nan', 'npnan'), ('inf', '-inf', 'npinf')
+# conditions for the tables holding special float cells (x column)
+SPECIAL_CONDS = [None, 0, 1, 2.0, 'nan', 'npnan', 'inf', '-inf', 'npinf', 'a', 'zz',
+                 [1, 'a'], ['inf', 1], [None, 2, 'neg0'], [], {'re': 'a'}]
 
 # condition tokens for one column
 VALUE_CONDS = [None, 1, 1.0, 2, 2.0, 3, 'nan', 'a', 'ab', 'zz',
@@ -28,7 +42,11 @@ FUNC_ARGS = {'x_is_none': ['x'], 'x_is_str': ['x'], 'always': ['x'], 'never': ['
 
 
 def is_nan(v):
-    return isinstance(v, float) and math.isnan(v)
+    return isinstance(v, float) and math.isnan(v)       # numpy.float64 is a float
+
+
+def is_inf(v):
+    return isinstance(v, float) and math.isinf(v)
 
 
 def canon(v):
@@ -49,38 +67,57 @@ def rows_equal(got, exp, cols):
 
 
 def dec_cell(tok, nan):
-    return nan if tok == 'nan' else tok
+    """nan: the table's NaN objects - a float (old callers) or a dict token -> object"""
+    if isinstance(tok, str) and tok in NAN_TOKS + INF_TOKS + ('neg0',):
+        if tok in NAN_TOKS:
+            return nan[tok] if isinstance(nan, dict) else nan
+        return dec_special(tok)
+    return tok
+
+
+def dec_special(tok):
+    import numpy as np
+    return {'nan': float('nan'), 'npnan': np.float64('nan'), 'inf': float('inf'), '-inf': float('-inf'), 'npinf': np.float64('inf'), 'neg0': -0.0}[tok]
+
+
+def table_nans():
+    return {'nan': dec_special('nan'), 'npnan': dec_special('npnan')}
 
 
 def dec_cond(tok):
     if isinstance(tok, dict):
         return re.compile(tok['re'])
     if isinstance(tok, list):
-        return list(tok)
-    if tok == 'nan':
-        return float('nan')        # a NaN object of its own: the condition is 'is a NaN', not 'is this object'
+        return [dec_cond(t) for t in tok]
+    if isinstance(tok, str) and tok in NAN_TOKS + INF_TOKS + ('neg0',):
+        return dec_special(tok)    # a NaN object of its own: the condition is 'is a NaN', not 'is this object'
     return tok
 
 
 def sat_cell(cell, tok):
+    """True / False, or None where the statement does not say (an infinite cell under a NaN condition and the like)"""
     if isinstance(tok, dict):
         return isinstance(cell, str) and re.search(tok['re'], cell) is not None
     if isinstance(tok, list):
-        return any(cell is v or cell == v for v in tok)
+        return any(cell is v or bool(cell == v) for v in dec_cond(tok))       # no NaN inside the lists of the catalogue
     if tok is None:
         return cell is None
-    if tok == 'nan':
-        return is_nan(cell)
-    return cell == tok
+    if isinstance(tok, str) and tok in NAN_TOKS:
+        return True if is_nan(cell) else None if is_inf(cell) else False
+    if isinstance(tok, str) and tok in INF_TOKS:
+        return True if bool(cell == dec_special(tok)) else None if (is_nan(cell) or is_inf(cell)) else False
+    return bool(cell == dec_cond(tok))
 
 
 def sat_row(row, cond):
-    """cond = dict(kw={col: tok}, dict={col: tok}, fn=name): conjunction of the column conditions, or the single callable"""
+    """cond = dict(kw={col: tok}, dict={col: tok}, fn=name): conjunction of the column conditions, or the single callable.
+    Three-valued: False as soon as one column condition fails, else None if one is unspecified, else True"""
     if cond.get('fn'):
         return bool(FUNCS[cond['fn']](*[row[a] for a in FUNC_ARGS[cond['fn']]]))
     conds = dict(cond.get('dict') or {})
     conds.update(cond.get('kw') or {})
-    return all(sat_cell(row[c], t) for c, t in conds.items())
+    res = [sat_cell(row[c], t) for c, t in conds.items()]
+    return False if any(r is False for r in res) else None if any(r is None for r in res) else True
 
 
 def cond_kind(cond):
@@ -118,7 +155,7 @@ def eval_case(case):
     """all clauses for one (table, condition); returns [(key, what)]"""
     from pyg_base import dictable
     fails = []
-    nan = float('nan')
+    nan = table_nans()
     cols = ['x', 'y', 'i']
     n = len(case['x'])
     data = dict(x=[dec_cell(t, nan) for t in case['x']], y=[dec_cell(t, nan) for t in case['y']], i=list(range(n)))
@@ -127,8 +164,19 @@ def eval_case(case):
     cond = case['cond']
     kind = ':' + cond_kind(cond)
     snap = [(k, list(v)) for k, v in dict(d).items()]
-    exp_inc = [r for r in rows if sat_row(r, cond)]
-    exp_exc = [r for r in rows if not sat_row(r, cond)]
+    verdict = [sat_row(r, cond) for r in rows]
+    exp_inc = [r for r, v in zip(rows, verdict) if v is True]
+    exp_exc = [r for r, v in zip(rows, verdict) if v is False]
+    unspecified = any(v is None for v in verdict)        # rows the statement leaves open: they may be on either side
+
+    def rows_ok(got_rows, must, must_not):
+        """got_rows: a subsequence of the table's rows (by row id, ascending) holding every row of `must` and none of `must_not`"""
+        ids = [g.get('i') for g in got_rows]
+        if any(not isinstance(i, int) or not 0 <= i < n for i in ids) or ids != sorted(set(ids)):
+            return False
+        if not rows_equal(got_rows, [rows[i] for i in ids], cols):
+            return False
+        return all(r['i'] in ids for r in must) and not any(r['i'] in ids for r in must_not)
 
     def unchanged():
         now = dict(d)
@@ -153,7 +201,7 @@ def eval_case(case):
         if set(rc) != set(cols):
             fail('C06:%s:columns%s' % (name, kind), '%s result has columns %r (rows %d), table has %r' % (name, rc, len(rr), cols))
             continue
-        if not rows_equal(rr, exp, cols):
+        if not (rows_ok(rr, exp, exp_exc if name == 'inc' else exp_inc) if unspecified else rows_equal(rr, exp, cols)):
             fail('C06:%s:rows%s' % (name, kind), '%s returned rows %r, expected %r' % (name, [x['i'] for x in rr], [x['i'] for x in exp]))
     if 'inc' in got and 'exc' in got and 'i' in got['inc'].keys() and 'i' in got['exc'].keys():
         gi, ge = list(got['inc']['i']), list(got['exc']['i'])
@@ -173,8 +221,16 @@ def eval_case(case):
         except Exception as e:      # noqa
             fail('C06:inc:idempotent%s' % kind, 'second inc raised %s: %s' % (type(e).__name__, e))
     # find_<col>
+    selected = exp_inc
+    if unspecified:                          # the statement defines find_ / one_or_none through the rows inc selects
+        ok_ids = 'inc' in got and 'i' in got['inc'].keys() and all(isinstance(i, int) and 0 <= i < n for i in got['inc']['i'])
+        selected = [rows[i] for i in got['inc']['i']] if ok_ids else None
     for col in cols:
-        vals = distinct([r[col] for r in exp_inc])
+        if selected is None:
+            break
+        vals = distinct([r[col] for r in selected])
+        nans = [r[col] for r in selected if is_nan(r[col])]
+        two_nans = any(a is not b for a in nans for b in nans)     # two NaN objects: one value or two? the statement does not say
         a, kw = call_args(cond)
         try:
             v = getattr(d, 'find_' + col)(*a, **kw)
@@ -184,7 +240,7 @@ def eval_case(case):
         except Exception as e:      # noqa
             outcome = ('other', '%s: %s' % (type(e).__name__, e))
         if len(vals) == 1:
-            ok = outcome[0] == 'value' and same(outcome[1], vals[0])
+            ok = (outcome[0] == 'value' and same(outcome[1], vals[0])) or (two_nans and outcome[0] == 'ValueError')
         else:
             ok = outcome[0] == 'ValueError'
         if not ok:
@@ -192,11 +248,16 @@ def eval_case(case):
     # one_or_none, plain and with exc= / find=
     for extra in (None, dict(exc={'y': case.get('exc_y')}, find='i')):
         a, kw = call_args(cond)
-        sel = exp_inc
+        sel = selected
+        if sel is None:
+            break
         if extra:
             if cond.get('fn'):
                 continue
-            sel = [r for r in sel if not sat_cell(r['y'], extra['exc']['y'])]
+            drop = [sat_cell(r['y'], extra['exc']['y']) for r in sel]
+            if any(v is None for v in drop):
+                continue                     # the exc= condition is unspecified on a selected row
+            sel = [r for r, v in zip(sel, drop) if not v]
             kw = dict(kw, exc={'y': dec_cond(extra['exc']['y'])}, find='i')
         try:
             v = d.one_or_none(*a, **kw)
@@ -223,7 +284,7 @@ def eval_case(case):
 def eval_identity(case):
     """inc() / exc() with no condition are the identity"""
     from pyg_base import dictable
-    nan = float('nan')
+    nan = table_nans()
     cols = ['x', 'y', 'i']
     n = len(case['x'])
     data = dict(x=[dec_cell(t, nan) for t in case['x']], y=[dec_cell(t, nan) for t in case['y']], i=list(range(n)))
@@ -252,6 +313,27 @@ def conditions(rng, sample=None):
     return out + pairs
 
 
+def special_conditions(rng, n_pairs):
+    """the condition catalogue for tables holding special float cells: every keyword condition of SPECIAL_CONDS on x, dict
+    conditions, callables, and a seeded sample of two-column conjunctions whose y condition may be NaN / inf as well"""
+    out = [dict(kw={'x': t}) for t in SPECIAL_CONDS]
+    out += [dict(dict={'x': t}) for t in ('nan', 'inf', 1)]
+    out += [dict(fn=f) for f in ('x_is_none', 'always', 'never', 'x_eq_y', 'x_truthy')]
+    pairs = [dict(kw={'x': a, 'y': b}) for a in ('nan', 'inf', '-inf', None, [1, 'inf', None]) for b in ('nan', 'npinf', None, 1, ['inf', 'a'])]
+    pairs += [dict(dict={'x': a}, kw={'y': b}) for a in ('nan', 'inf') for b in ('nan', '-inf', 'a')]
+    return out + rng.sample(pairs, n_pairs)
+
+
+def special_tables(rng, n_random):
+    """every list of <= 2 cells over U2 holding at least one special float cell, and seeded 3-4 row tables holding at least one"""
+    out = [[a] for a in SPECIAL_CELLS] + [[a, b] for a in U2 for b in U2 if a in SPECIAL_CELLS or b in SPECIAL_CELLS]
+    for _ in range(n_random):
+        xs = [rng.choice(U2) for _ in range(rng.choice([3, 4]))]
+        xs[rng.randrange(len(xs))] = rng.choice(SPECIAL_CELLS)
+        out.append(xs)
+    return out
+
+
 def run(tier, seed):
     rng = random.Random(seed)
     quick = tier == 'quick'
@@ -262,8 +344,13 @@ def run(tier, seed):
                   'spellings 1/1.0, 2/2.0, None, NaN, a value matching nothing, 5 lists incl. [] and [None, 2], 5 compiled regexes), 6 dict conditions, 8 single callables '
                   '(incl. always/never, two-column, truthy non-bool result), %s two-column conjunctions (keyword, dict+keyword, dict). Per case: inc rows, exc rows, order, '
                   'partition, columns kept, idempotence, self unchanged, find_x/find_y/find_i, one_or_none plain and with exc=/find=. Non-trivial when the table has rows; '
-                  'distinct by (x, y, condition). One NaN object per table (np.nan-like); the NaN condition is a different object.'
-                  % (full_rows, ' plus %d seeded 4-row tables' % n_sampled if n_sampled else '', '12 sampled of 63' if quick else 'all 63'),
+                  'distinct by (x, y, condition). One NaN object per table (np.nan-like); the NaN condition is a different object. '
+                  'Special float cells {+inf, -inf, numpy.float64 NaN, numpy.float64 inf, -0.0}: every x column of <= 2 cells over the 11 values holding at least one of them '
+                  'plus %d seeded 3-4 row ones (y cells from the 11 values), each x 16 keyword conditions incl. NaN / numpy NaN / +inf / -inf / numpy inf / [inf, 1], '
+                  '3 dict conditions, 5 callables, %s two-column conjunctions; one condition on a special float for every ordinary table. Where the statement does not say '
+                  'whether an infinite cell is a NaN the row may be on either side; partition, order, columns, idempotence are asserted regardless.'
+                  % (full_rows, ' plus %d seeded 4-row tables' % n_sampled if n_sampled else '', '12 sampled of 63' if quick else 'all 63',
+                     40 if quick else 1000, '5 sampled of 31' if quick else 'all 31'),
                   exhaustive=False, scope='x column: all lists of <= %d cells over 6 values; y sampled; condition catalogue of 97 (quick: 46 per table)' % full_rows)
     tables = []
     for n in range(full_rows + 1):
@@ -286,6 +373,36 @@ def run(tier, seed):
             c.case((tuple(xs), tuple(ys), repr(cond)), nontrivial=len(xs) > 0, sample=case)
             for key, what in fails:
                 c.check(False, key, '%s | x=%r y=%r cond=%r exc_y=%r' % (what, xs, ys, cond, case['exc_y']), case)
+    # special float cells (drawn after every older draw: the older cases are unchanged for a given seed)
+    for xs in special_tables(rng, 40 if quick else 1000):
+        ys = [rng.choice(U2) for _ in xs]
+        base = dict(x=xs, y=ys)
+        for f in eval_identity(base):
+            c.check(False, f[0], f[1] + ' | x=%r y=%r' % (xs, ys), dict(base, cond=None))
+        c.case((tuple(xs), tuple(ys), 'identity'), nontrivial=True)
+        for cond in special_conditions(rng, 5 if quick else 31):
+            case = dict(base, cond=cond, exc_y=rng.choice([None, 1, 'nan', 'inf', 'a', [1, 'a'], 'zz']))
+            try:
+                fails = eval_case(case)
+            except Exception as e:      # noqa
+                fails = [('C06:harness', 'evaluation crashed %s: %s' % (type(e).__name__, e))]
+            c.case((tuple(xs), tuple(ys), repr(cond)), nontrivial=True, sample=case)
+            for key, what in fails:
+                c.check(False, key, '%s | x=%r y=%r cond=%r exc_y=%r' % (what, xs, ys, cond, case['exc_y']), case)
+    # and one condition on a special float value for each of the ordinary tables (NaN cells under an infinite condition)
+    for xs in tables:
+        if not xs:
+            continue
+        ys = [rng.choice(U) for _ in xs]
+        cond = rng.choice([dict(kw={'x': 'inf'}), dict(kw={'x': 'npnan'}), dict(dict={'x': '-inf'}), dict(kw={'x': ['inf', 1]}), dict(kw={'x': 'nan', 'y': 'npinf'})])
+        case = dict(x=xs, y=ys, cond=cond, exc_y=rng.choice([None, 'nan', 'inf', 'a']))
+        try:
+            fails = eval_case(case)
+        except Exception as e:      # noqa
+            fails = [('C06:harness', 'evaluation crashed %s: %s' % (type(e).__name__, e))]
+        c.case((tuple(xs), tuple(ys), repr(cond)), nontrivial=True, sample=case)
+        for key, what in fails:
+            c.check(False, key, '%s | x=%r y=%r cond=%r exc_y=%r' % (what, xs, ys, cond, case['exc_y']), case)
     return c.result()
 
 
